@@ -41,6 +41,16 @@ def warmup():
     return {'interrupt_type_injected': 'SystemError (probed from the real limiter by C19 / E1)'}
 
 
+CORE_CLAUSES = ('decode-raises', 'invalid-matrix', 'variables-for-single-set')
+
+
+class Probe(Exception):
+    def __init__(self, kind, detail):
+        super().__init__(kind)
+        self.kind = kind
+        self.detail = detail
+
+
 class Viol(Exception):
     def __init__(self, clause, detail):
         super().__init__(clause)
@@ -126,6 +136,10 @@ def validate(obs, spec, mgr_extra=None):
         return _validate(obs, spec)
     except Viol as v:
         name = obs['encoder']
+        kind = v.clause.split('/', 1)[1]
+        if kind not in CORE_CLAUSES:
+            # a law of C10 (not claimed by this family of technique): recorded as a probe, never reported
+            raise Probe(kind, v.detail)
         fam = 'pattern-encoder' if 'Pattern Encoder' in name else ('lazy-encoder' if name.startswith('Lazy') else
                                                                    'eager-encoder')
         raise Viol(f'{v.clause}[{fam}]', v.detail)
@@ -375,12 +389,20 @@ def _judge(trace, pi, oi, rec, log, stats, tainted, cold_dir, env):
         if not rec['calls']:
             stats['probe:cache_hit'] += 1
         stats['encoder:' + rec['obs']['encoder']] += 1
-        validate(rec['obs'], spec)
+        try:
+            validate(rec['obs'], spec)
+        except Probe as pr:
+            stats['probe:c10_law_' + pr.kind] += 1
         # transparency: the same selection in a pristine process with an empty cache directory, caching off, same
         # fault plan, same seeds
         if op[2] and not tainted:
             src_phase = _producer(trace, pi, oi)
-            if src_phase is not None:
+            prod_plan = trace['phases'][src_phase[0]]['ops'][src_phase[1]][3] if src_phase is not None else {}
+            has_kill = prod_plan.get('mode') == 'all_first' or any(not isinstance(a, list)
+                                                                   for a in prod_plan.get('map', {}).values())
+            # a kill point is a count of delivery points, and cached and uncached code paths have different counts, so
+            # "the same fault plan" is only well defined for plans without kills (rejections are per call index)
+            if src_phase is not None and not has_kill:
                 cold = _cold_select(trace, src_phase, cold_dir)
                 stats['cold_twins'] += 1
                 if cold['status'] != 'ok':
@@ -733,4 +755,4 @@ def jobs(tier, batch_seed):
     from simkit.driver import std_jobs
     if tier == 'thorough':
         return std_jobs([('generate_enum', 90), ('generate', 20000), ('generate_disk', 6000)], batch_seed)
-    return std_jobs([('generate_enum', 3), ('generate', 120), ('generate_disk', 40)], batch_seed)
+    return std_jobs([('generate_enum', 2), ('generate', 130), ('generate_disk', 40)], batch_seed)
